@@ -1490,6 +1490,13 @@ def main(out_path):
                         assigned.add(n.id)
         w(kernel('src_patch_cmp', [('product', 'string'), ('spatch', 'string'), ('opatch', 'string'), ('o_test', 'bool'), ('s_test', 'bool'), ('o_pdigit', 'option string'), ('s_pdigit', 'option string')],
                  block, inputs=inputs))
+        # the same block together with the two statements before it: the version comparison decides first, the patch level only breaks ties
+        need(k[0] >= 2 and ast.unparse(cv.body[k[0] - 2]) == 'version_cmp = Utils.compare_versions(self.version, oversion)', 'compare_version: version_cmp is the comparison of the two version texts')
+        inputs2 = dict(inputs)
+        inputs2['Utils.compare_versions(self.version, oversion)'] = ('vc', 'Z')
+        inputs2["self.patch or ''"] = ('spatch0', 'string')
+        w(kernel('src_compare_tail', [('vc', 'Z'), ('product', 'string'), ('spatch0', 'string'), ('opatch', 'string'), ('o_test', 'bool'), ('s_test', 'bool'), ('o_pdigit', 'option string'), ('s_pdigit', 'option string')],
+                 cv.body[k[0] - 2:], inputs=inputs2))
     soft('Software.compare_version (patch block)', ['C14'], ex_patch_cmp)
 
     def ex_since_text():
